@@ -4,5 +4,5 @@ Require Extraction.
 Require Import ExtrOcamlBasic.
 Extraction Language OCaml.
 Extraction "C02_model.ml" wire_anchor members read_poisoned default_obs default_obs_poisoned empty_state default_size all_objs
-  C08.Model.mkview C08.Core.vchars C02.ModelFp.tfp_scan C02.ModelFp.tfp_spec C02.ModelFp.tfp_scan_prefix
+  C08.Model.mkview C08.Model.cstr_view C08.Core.vchars C02.ModelFp.tfp_scan C02.ModelFp.tfp_spec C02.ModelFp.tfp_scan_prefix
   C02.ModelFf.ffp_m C02.ModelFf.ffp_text C02.ModelFf.to_string_chars C02.ModelFf.ffp_prefix.
